@@ -1881,6 +1881,9 @@ def run(ctx, replay=None):
         "error CLASS: the model's normalize_index is compared with the implementation's exactly; against NumPy only "
         "refusal-vs-success is required (dask raises TypeError for a second Ellipsis, IndexError before ValueError for step 0)",
     ]
+    if replay is not None and isinstance(replay.get("case"), dict) and replay["case"].get("shf"):  # harness/props_ext/c12_shuffle.py
+        from harness.props_ext import c12_shuffle
+        return c12_shuffle.run(ctx, replay_case=replay["case"])
     if replay is not None and isinstance(replay, dict) and isinstance(replay.get("case"), dict) and "case" in replay["case"]:
         case = replay["case"]["case"]
         if isinstance(case, dict):
@@ -1902,6 +1905,10 @@ def run(ctx, replay=None):
     search(ctx, ctx.scale(5200, 105000))
     ctx.notes["wall_correspondence_s"] = round(t1 - t0, 1)
     ctx.notes["wall_search_s"] = round(time.time() - t1, 1)
+    from harness.props_ext import c12_shuffle  # take / shuffle / vindex layers (Props/C12Shuffle.lean; shf.*)
+    t2 = time.time()
+    c12_shuffle.run(ctx)
+    ctx.notes["wall_shuffle_s"] = round(time.time() - t2, 1)
     if ctx.disagreements:
         targeted(ctx)
     ctx.extra.pop("_shrunk", None)
